@@ -14,7 +14,8 @@ import common as C
 import gen as G
 
 THEOREMS = ['promotion_table_is_numpy', 'fill_ok_promote', 'mergemany_app_partial', 'mergemany_valid_partial',
-            'merge_as_union_app', 'merge_as_union_valid', 'simplify_option_value', 'simplify_option_flat']
+            'merge_as_union_app', 'merge_as_union_valid', 'simplify_option_value', 'simplify_option_flat',
+            'simplify_union_value_partial', 'astype_only_casts_partial']
 DRIVERS = ('mergedrv',)
 NEEDS_SAN = True
 COQ_DIR = '/verif/c08/coq'
